@@ -740,3 +740,47 @@ def delegated_step(F, body, inner_suffix, post_suffix):
     if inv[0].bb not in pd or post[0].bb not in pd:
         return None
     return "%s(|s| s.%s(..)) with %s = post-process(closure())" % (hb.path.split("::")[-1], inner_suffix.split("::")[-1], hb.path.split("::")[-1])
+
+
+def ascii_digit_run(F, body, e):
+    """Is `e` the expression `start + s[start..].chars().take_while(|c| c.is_ascii_digit()).count()` (the end of a run of
+    one-byte characters beginning at `start`)?  -> (start expr, count call) or None"""
+    x = strip_expr(e)
+    if x[0] == "place" and isinstance(x[1], tuple) and x[1][0] == "binop" and x[1][1] in ("AddWithOverflow", "Add"):
+        x = x[1]
+    if x[0] != "binop" or x[1] not in ("AddWithOverflow", "Add"):
+        return None
+    for (st, cn) in ((x[2], x[3]), (x[3], x[2])):
+        c = strip_expr(cn)
+        if c[0] != "call" or c[1].split("::")[-1] != "count":
+            continue
+        names = [y[1].split("::")[-1] for y in expr_calls(c)]
+        if "take_while" not in names or "chars" not in names:
+            continue
+        # the predicate is is_ascii_digit (ASCII digits are one byte each)
+        preds = [cb for cb in with_closures(F, body)[1:] if any(z.callee.endswith("is_ascii_digit") for z in cb.calls())
+                 and not any(z.callee.split("::")[-1] in ("is_numeric", "is_digit", "is_alphanumeric") for z in cb.calls())]
+        if not preds:
+            continue
+        # and the characters come from the slice that begins at `start`
+        sl = [y for y in expr_calls(c) if y[1].endswith("for str>::index")]
+        if not sl:
+            continue
+        rng = strip_expr(sl[0][2][1]) if len(sl[0][2]) > 1 else None
+        if len(sl[0]) > 3 and sl[0][3] is not None and (rng is None or rng[0] != "agg" or rng[3] and strip_expr(rng[3][0])[0] == "local"):
+            rng = strip_expr(body.expr(sl[0][3].args[1]))     # the nested expression was cut off: re-expand from the call
+        if rng is None or rng[0] != "agg" or not str(rng[1]).endswith("RangeFrom"):
+            continue
+        if _norm_small(strip_expr(rng[3][0])) != _norm_small(strip_expr(st)) and not _same_call_payload(strip_expr(rng[3][0]), strip_expr(st)):
+            continue
+        return (strip_expr(st), c[3] if len(c) > 3 else None)
+    return None
+
+
+def _norm_small(e):
+    return show(e)
+
+
+def _same_call_payload(a, b):
+    return a[0] == "place" and b[0] == "place" and isinstance(a[1], tuple) and isinstance(b[1], tuple) and a[1][0] == "call" and \
+        b[1][0] == "call" and len(a[1]) > 3 and len(b[1]) > 3 and a[1][3] is b[1][3]
